@@ -199,7 +199,7 @@ def stage_mday(ctx):
     from harness.adapters import cost as K
 
     cases = f5_family(ctx.rng)
-    for size, n in (("tiny", ctx.pick(1500, 30000)), ("small", ctx.pick(1500, 30000)), ("big", ctx.pick(200, 4000))):
+    for size, n in (("tiny", ctx.pick(4000, 100000)), ("small", ctx.pick(4000, 100000)), ("big", ctx.pick(500, 12000))):
         cases += [random_mday(ctx.rng, size) for _ in range(n)]
     model = core.LeanDriver("drv_cost").run([K.mday_line(c) for c in cases])
     for c, ml in zip(cases, model):
@@ -235,8 +235,8 @@ def stage_mday(ctx):
 def stage_multiday(ctx):
     from harness.adapters import cost as K
 
-    cases = [CC.random_multiday(ctx.rng) for _ in range(ctx.pick(400, 6000))]
-    cases += [CC.random_multiday(ctx.rng, big=True) for _ in range(ctx.pick(100, 1500))]
+    cases = [CC.random_multiday(ctx.rng) for _ in range(ctx.pick(1500, 30000))]
+    cases += [CC.random_multiday(ctx.rng, big=True) for _ in range(ctx.pick(300, 6000))]
     charge = 50
     model = core.LeanDriver("drv_cost").run([K.mcost_line(S, st, charge, days) for (S, st, days) in cases])
     k = 0
@@ -261,7 +261,7 @@ def stage_rows(ctx):
     from harness.adapters import cost as K
 
     rows = []
-    for _ in range(ctx.pick(1500, 20000)):
+    for _ in range(ctx.pick(3000, 60000)):
         n = ctx.rng.choice([0, 1, 1, 2, 3, 5])
         ms = [(ctx.rng.choice([0, 5, 64, 1000]), ctx.rng.choice([0, 0, 512, 2500])) for _ in range(n)]
         rows.append((ctx.rng.random() < 0.5, ms, ctx.rng.choice([0, 0, 200, 448]), ctx.rng.choice([0, 200, 64])))
@@ -285,7 +285,7 @@ def stage_rows(ctx):
         ctx.broke("wiring: include_upfront_cost=first_day in LdarSim.run_simulation", str(e))
         return
     progs = []
-    for _ in range(ctx.pick(300, 4000)):
+    for _ in range(ctx.pick(800, 15000)):
         nd = ctx.rng.randint(1, 6)
         nm = ctx.rng.choice([0, 1, 2, 3])
         ups = [ctx.rng.choice([0, 512, 2500]) for _ in range(nm)]
@@ -319,9 +319,9 @@ def stage_repair(ctx):
     cases = []
     core_cases = list(repair_boundary_cases())
     ctx.rng.shuffle(core_cases)
-    for (start, nrd, delay, n, evs) in core_cases[: ctx.pick(2500, 40000)]:
+    for (start, nrd, delay, n, evs) in core_cases[: ctx.pick(5000, 80000)]:
         cases.append((start, nrd, delay, n, ctx.rng.choice([200, 64, 0]), evs))
-    for _ in range(ctx.pick(1500, 30000)):
+    for _ in range(ctx.pick(3000, 80000)):
         big = ctx.rng.random() < 0.1
         n = ctx.rng.randint(20, 200) if big else ctx.rng.randint(1, 9)
         nrd = ctx.rng.randint(1, 250) if big else ctx.rng.randint(1, 7)
